@@ -467,6 +467,25 @@ def d5_adc(ctx):
                       f"adc_shifts result unpacked into {keys}", key="adc-unpack-th")
 
 
+def d7_no_shared_mutation(ctx):
+    ctx.rule("D7", "geometry construction does not modify, in place, arrays that are cached / shared between calls")
+    repo = ctx.repo
+    from sa.common import shared_mutations, shared_returning
+    shared = shared_returning(repo)
+    n = 0
+    for q in ("spikeglx.geometry_from_meta", "spikeglx._map_channels_from_meta", "spikeglx._split_geometry_into_shanks", "neuropixel.trace_header",
+              "neuropixel.dense_layout", "neuropixel.adc_shifts", "neuropixel.split_trace_header"):
+        fi = repo.fn(q)
+        muts = shared_mutations(repo, fi, shared)
+        n += 1
+        if not muts:
+            ctx.ok(fi, fi.node, f"{q.split('.')[-1]}: no in-place operation on a cached array" + (f" (memoised helpers: {sorted(shared)})" if shared else ""),
+                   "per-site arrays are fresh for every call", key="shared:" + q)
+        for st, tgt, why in muts:
+            ctx.violation(fi, st, st, f"{why}: `{src(st)[:70]}` changes it for every later call with the same metadata string "
+                          "(the second geometry read from the same map is shifted; geometries handed out earlier change retroactively)", key="shared:" + q + ":" + norm(tgt)[:40])
+
+
 def d6_shank_key(ctx):
     ctx.rule("D6", "the split marker key read by _split_geometry_into_shanks is the one NP2Converter writes")
     from rules import C04
@@ -480,5 +499,6 @@ def run(ctx):
     ctx.run(d4_version_tables)
     ctx.run(d5_adc)
     ctx.run(d6_shank_key)
+    ctx.run(d7_no_shared_mutation)
     from rules import C01
     ctx.run(C01.d2b_returned_index)
